@@ -48,6 +48,7 @@ def _solo_child(world, steps, overrides, calc_cfg, step_budget=None):
     # simulated operation ran out of its deterministic step budget is the solo run given the same budget through the
     # seam, so that "does not terminate solo either" is decided by counting, not by a wall clock
     b = Builder(world, shared=False, seam=step_budget is not None, overrides=overrides, calc_cfg=calc_cfg)
+    b.apply_edits((overrides or {}).get("edits"))
     if step_budget is not None:
         n = [0]
 
@@ -97,7 +98,7 @@ def evaluate(spec, hist, compare_admin=False):
                 if g is not None:
                     calc_cfg[str(op["calc"])] = explicit_calc_cfg(world["calcs"][op["calc"]].get("config"), g["gstep"])
     for ti, prog in enumerate(spec["programs"]):
-        ov = {"weapon_zero": {}, "ammo_tm": {}}
+        ov = {"weapon_zero": {}, "ammo_tm": {}, "edits": []}
         ov_at = {}
         failed_before = set()          # calculators on which an op has failed / been interrupted earlier
         for i, op in enumerate(prog):
@@ -109,7 +110,13 @@ def evaluate(spec, hist, compare_admin=False):
             ov_at[i] = copy.deepcopy(ov)
             if k in SKIP_COMPARE and not compare_admin:
                 continue
-            if k in ("fire", "zero", "elev") and str(op["calc"]) not in calc_cfg:
+            if k == "edit":
+                if res.get("kind") == "ok":
+                    ov["edits"].append([op["kind"], op["index"], op["field"], op["value"]])
+                    if op["kind"] == "weapons" and op["field"] == "zero_elevation":
+                        ov["weapon_zero"].pop(str(op["index"]), None)
+                continue
+            if k in ("fire", "zero", "elev", "fire_tmp") and str(op["calc"]) not in calc_cfg:
                 # calculator used before its new_calc op completed (e.g. creation interrupted): nothing to compare
                 continue
             eop = make_explicit(op, g["slots"]) if g else op
